@@ -302,6 +302,7 @@ func C09() int {
 	distinct := findings.NewDistinct()
 	outcomes := findings.NewDistinct()
 	done, undef, capped := 0, 0, false
+	illegal := 0
 	prefixClasses := map[string]int{}
 	drive.Par(len(cases), func(i int) {
 		if past(deadline) {
@@ -400,6 +401,76 @@ func C09() int {
 			}
 			return "", "", tr, got
 		}
+		// illegal accesses: the same files with ONE more statement in main that reaches for something the
+		// import rules do not expose; every such program must be rejected for both targets
+		{
+			type bad struct{ what, stmt string }
+			var bads []bad
+			libByPath := map[string]c09Lib{}
+			for _, l := range c.libs {
+				libByPath[fmt.Sprintf("l%d.tsh", l.id)] = l
+			}
+			mainAlias := map[string]bool{}
+			for _, mi := range c.mainImp {
+				mainAlias[mi[0]] = true
+			}
+			for _, mi := range c.mainImp {
+				l, a := libByPath[mi[1]], mi[0]
+				bads = append(bads, bad{"undefined name via alias", "print(" + a + ".Nope())"})
+				if l.feat&fPriv != 0 {
+					bads = append(bads, bad{"private function via alias", "print(" + a + ".helper())"}, bad{"unused private function via alias", "print(" + a + ".unused())"},
+						bad{"imported public function without alias", "print(Wrap())"})
+				}
+				if l.feat&fUnder != 0 {
+					bads = append(bads, bad{"underscore-led function via alias", "print(" + a + "._step())"})
+				}
+				if l.feat&fInit != 0 {
+					bads = append(bads, bad{"private function used by the file's top-level code via alias", "print(" + a + ".boot())"})
+				}
+				if l.feat&fUseGlob != 0 && l.feat&fGlobal != 0 {
+					bads = append(bads, bad{"imported public function without alias", "print(Cnt())"})
+				}
+				for _, j := range l.imports {
+					if d := fmt.Sprintf("d%d", j); !mainAlias[d] {
+						bads = append(bads, bad{"alias of an imported file's own import", "print(" + d + ".Get())"})
+					}
+				}
+			}
+			bads = append(bads, bad{"unknown alias", "print(zz.Get())"})
+			seen := map[string]bool{}
+			for _, b := range bads {
+				if seen[b.stmt] {
+					continue
+				}
+				seen[b.stmt] = true
+				bf := map[string]string{}
+				for k, v := range files {
+					bf[k] = v
+				}
+				bf["main.tsh"] = src + b.stmt + "\n"
+				for t := 0; t < 2; t++ {
+					res := drive.Transpile(bf, "main.tsh", drive.Target(t))
+					mu.Lock()
+					illegal++
+					mu.Unlock()
+					if res.Rejected() {
+						continue
+					}
+					sym := "accepted"
+					if res.Panic != "" {
+						sym = "transpiler-panic"
+					}
+					b, bf, tg := b, bf, drive.Target(t).String()
+					r.Fail("case="+c.name+" illegal="+b.what+" symptom="+sym+"-"+tg, fmt.Sprintf("import graph %s with `%s` (%s): %s for %s", c.name, b.stmt, b.what, sym, tg), func() findings.Replay {
+						fs := map[string]string{"detail.txt": b.what + ": " + b.stmt + "\n"}
+						for k, v := range bf {
+							fs["src/"+k] = v
+						}
+						return findings.Replay{Files: fs, Script: transpileOnlyReplay()}
+					})
+				}
+			}
+		}
 		sym, detail, tr, got := judge()
 		if sym == "" {
 			return
@@ -427,8 +498,9 @@ func C09() int {
 	r.Set("distinct_nontrivial", distinct.Len())
 	r.Set("distinct_expected_outputs", outcomes.Len())
 	r.Set("skipped_undefined", undef)
+	r.Set("illegal_access_programs_judged", illegal)
 	r.Set("exhaustive", !capped)
-	r.Set("rule", "every import graph over main + up to 2 library files (3 in thorough: every DAG x every set of main edges with all files reachable), each library drawn from feature combinations {public func, private func + public wrapper + unused func, global + top-level code, top-level call of own function, public func reading own global, func calling into own import}, equal names (Get, helper, Wrap) in every file and in main, a file imported under two aliases, std strings mixed in, and content-hash prefixes steered to start with a digit / a letter (every hex digit in thorough). Oracle: the reference interpreter's module semantics (each file's top-level code once, in dependency order); bash stdout/exit/stderr must match; static scan: no function defined twice or invoked at top level before its definition; the Batch target must accept the same files. Distinct by the set of file contents.")
+	r.Set("rule", "every import graph over main + up to 2 library files (3 in thorough: every DAG x every set of main edges with all files reachable), each library drawn from feature combinations {public func, private func + public wrapper + unused func, global + top-level code, top-level call of own function, public func reading own global, func calling into own import}, equal names (Get, helper, Wrap) in every file and in main, a file imported under two aliases, std strings mixed in, and content-hash prefixes steered to start with a digit / a letter (every hex digit in thorough). Oracle: the reference interpreter's module semantics (each file's top-level code once, in dependency order); bash stdout/exit/stderr must match; static scan: no function defined twice or invoked at top level before its definition; the Batch target must accept the same files; and for every graph, main extended by one illegal access (private, underscore-led, undefined or unaliased name, alias of a file's own import, unknown alias) must be rejected for both targets. Distinct by the set of file contents.")
 	r.Assumef("the std library is not interpreted by the model; its one call has a fixed expected value")
 	return r.Finish()
 }
